@@ -361,7 +361,7 @@ Definition pm_head (f : frame) : M (option bool) :=
     (match f_type f with
      | TLogon => process_logon f
      | TSeqReset => process_seqreset f
-     | TLogout => count_logout f ;;; process_logout
+     | TLogout => catch (count_logout f) ;;; process_logout     (* a journal failure is logged, the session still ends *)
      | _ => ret tt
      end) ;;;
     w <- get ;;
